@@ -63,6 +63,42 @@ def run(rep, tier):
             chunk = ";\n".join(stmts[:j]) + ";"
             cases.append(f"(repl {names_sx} " + q(chunk) + " " + " ".join(q(s) for s in stmts[j:]) + ")")
             meta.append(("repl-split", k, j, names))
+    # crafted sessions: state carried from one input to the next in every way the language offers
+    CRAFTED = [
+        ["c := mut 0", "c += 1", "f := () -> int { return *c }", "c = 5", "r := f()"],
+        ["x := mut 1", "get := () -> int { return *x }", "x = 5", "r := get()"],
+        ["x := 5", "double := (x: int) -> int { return x * 2 }", "r := double(1)"],
+        ["x := 5", "y := { x := 7; x + 1 }", "z := x"],
+        ["f := (n: int) -> int { return 100 + n }", "f := (n: int) -> int { if n == 0 { return 1 } return f(n - 1) }", "r := f(3)"],
+        ["a := [1, 2, 3]", "it := a~", "p := it()", "q := it()", "rest := it $]"],
+        ["x := 1", "x := \"s\"", "y := x + \"t\""],
+        ["k := 2", "g := () -> int { return k * 10 }", "k := 3", "r := (g(), k)"],
+        ["m := mod { a := 1; b := () -> int { return a + 1 } }", "r := m.b()", "a := 5", "r2 := m.b()"],
+        ["(a, b) := (1, \"x\")", "c := (b, a)", "(a, b) := c"],
+        ["s := struct{a := 1, b := mut 2}", "s.b += 1", "r := *s.b"],
+        ["x := if true { 1 } else { \"a\" }", "r := match x { i: int => { i + 1 }, t: string => { 0 }, }"],
+        ["n := mut 0", "for i in [1, 2, 3]~ { n += i }", "r := *n", "n = 10", "r2 := *n"],
+        # S28 (known finding): the declared type of the cell of an un-annotated `mut x` is the static type
+        # of x -- the declared union in the batch route, the type of the actual value in the REPL route
+        ["c := mut 0", "x := if *c == 0 { 1 } else { \"a\" }", "m := mut x",
+         "r := match m { a: mut int => { 1 }, b: mut (int|string) => { 2 }, => { 3 }, }"],
+    ]
+    for stmts in CRAFTED:
+        names = []
+        for st in stmts:
+            head = st.split(":=")[0].strip() if ":=" in st.split("{")[0] else ""
+            for nm in head.strip("()").split(","):
+                nm = nm.strip()
+                if nm and nm.replace("_", "").isalnum() and nm not in names:
+                    names.append(nm)
+        k = len(meta) + 100000
+        names_sx = "(" + " ".join(names) + ")"
+        cases.append(f"(repl {names_sx} " + " ".join(q(s) for s in stmts) + ")")
+        meta.append(("repl", k, len(stmts), names))
+        for j in range(1, len(stmts) + 1):
+            cases.append(f"(batch {names_sx} " + q(";\n".join(stmts[:j]) + ";") + ")")
+            meta.append(("batch", k, j, names))
+    rep.count("L9.crafted-sessions", len(CRAFTED))
     out = common.run_cases(common.HARNESS, cases, timeout=900)
     rep.evaluations += len(cases)
     rep.distinct.update(cases)
